@@ -23,6 +23,10 @@ SUB4 = ['a', 'b c', '__x', 'class']
 SUB3 = ['a', '__x', '1x']
 SUB2 = ['a', '__x']
 SUB3B = ['a', 'b c', '__x']
+# boundary shapes of Python's private-name mangling rule (a name in a class body / in __slots__ is mangled iff it
+# starts with two underscores and does not end with two underscores); all are identifiers, none is a member of object
+MANGLE = ['__x_', '__x_y', '__x', '__', '___', '__x__', '_x_', 'x__']
+MANGLE6 = ['__x_', '__x_y', '__', '___', '_x_', 'x__']
 
 
 class ValHandle(Handle):
@@ -98,6 +102,10 @@ def build(sp, cx, levels, depth, label):
             sp.note('%s[%r] = sub-map with names %r' % (label, k, sorted(sub.kids)))
         if not k.isidentifier():
             sp.cover('non-identifier')
+        if k.startswith('__') and k.endswith('_') and not k.endswith('__'):
+            sp.cover('mangled-with-one-trailing-underscore')
+        if k.startswith('__') and k.endswith('__'):
+            sp.cover('only-underscores' if not k.strip('_') else 'dunder-style')
         if k.startswith('__') and not k.endswith('__'):
             sp.cover('mangling-style')
             if all(x.isidentifier() for x in combo):
@@ -222,7 +230,7 @@ def h_static(sp, levels=((NAMES, 2), (SUB4, 2), (SUB2, 1)), rots=1, mutate=False
     cx = Ctx(rot)
     model = build(sp, cx, levels, 0, 'm')
     m = model.real
-    absent_names = list(NAMES)
+    absent_names = list(NAMES) + sorted({n for names, _ in levels for n in names} - set(NAMES))
     try:
         snap = m.get_static_map()
     except Exception as ex:         # noqa
@@ -291,14 +299,22 @@ _MUT_TAGS = ['nested-mutation-resnapshot', 'deep-nested-mutation-resnapshot', 'r
              'resnapshot-after-composite-key', 'resnapshot-after-direct-edit', 'resnapshot-after-clear',
              'resnapshot-after-clear-nonempty', 'resnapshot-after-add', 'resnapshot-after-replace']
 _MUT_REQ = _TAGS + _MUT_TAGS
+_MANGLE_REQ = ['layered', 'mangling-style', 'mangling-style-all-identifiers', 'mangled-with-one-trailing-underscore',
+               'only-underscores', 'dunder-style', 'attr-access', 'handle-compared', 'deep-handle-compared',
+               'falsy-resource', 'submap-compared', 'attacked', 'attacked-submap']
 
 TIERS = {
     'quick': [('static', dict(levels=[[NAMES, 2], [SUB3B, 2], [SUB2, 1]], rots=1)),
+              # mangling shapes: every sibling is an identifier, so no __dict__ rescues a wrongly declared slot
+              ('static', dict(levels=[[MANGLE, 2], [MANGLE6, 1]], rots=1), {'required': _MANGLE_REQ}),
               ('static', dict(levels=[[['a', 'b c'], 2], [SUB3B, 2], [SUB2, 1]], rots=1, mutate=True),
                {'required': _MUT_REQ})],
     'thorough': [('static', dict(levels=[[NAMES, 3], [SUB3B, 2], [SUB2, 1]], rots=1)),
                  ('static', dict(levels=[[SUB5, 2], [SUB5, 2], [SUB3, 1]], rots=1)),
                  ('static', dict(levels=[[NAMES, 2], [SUB3B, 2], [SUB2, 1]], rots=3)),
+                 ('static', dict(levels=[[MANGLE, 3], [MANGLE6, 2]], rots=1), {'required': _MANGLE_REQ}),
+                 ('static', dict(levels=[[MANGLE + ['b c'], 2], [MANGLE6, 1]], rots=1, mutate=True),
+                  {'required': _MANGLE_REQ + ['nested-mutation-resnapshot', 'root-mutation-resnapshot']}),
                  ('static', dict(levels=[[SUB3B, 2], [SUB3B, 2], [SUB2, 1]], rots=1, mutate=True),
                   {'required': _MUT_REQ}),
                  ('static', dict(levels=[[NAMES, 2], [SUB2, 1], [['a'], 1]], rots=1, mutate=True),
@@ -321,18 +337,20 @@ RULE = ('one evaluation = one feasible path = one distinct tree shape; non-trivi
 BOUNDS = {
     'quick': "names a,b,'b c','1x',class,_y,__x,__x__,e-acute,'' ; root map: every set of <=2 names x "
              "{handle, layered handle, sub-map}; spine sub-map: <=2 names of a,'b c',__x; third level <=1 of a,__x; "
+             "mangling shapes: root <=2 of __x_,__x_y,__x,__,___,__x__,_x_,x__ x kinds, spine <=1 of them; "
              "re-snapshot phase: root <=2 of a,'b c' with the same lower levels, x every mutation {add 'new' / "
              "'n w', replace first handle, clear} x {root, each nested map} x {direct, composite key on the root}",
     'thorough': "root map: every set of <=3 of the 10 names x kinds, spine sub-map <=2 of a,'b c',__x, third "
                 "level <=1 of a,__x; root and second level <=2 of a,'b c',__x,class,'' with third level <=1 of "
                 "a,__x,1x; plus the quick universe with the three rotations of loaded values (token, None, 0); "
+                "mangling shapes: root <=3 and spine <=2 of the 8 shapes; the shapes + 'b c' with the re-snapshot phase; "
                 "re-snapshot phase: root and spine <=2 of a,'b c',__x with third level <=1 of a,__x, and root <=2 "
                 "of the 10 names with spine <=1 of a,__x and third level <=1 of a, x every mutation",
 }
 ASSUMPTIONS = [
     'names colliding with members of the snapshot (get, _handle_names, attributes of object such as __class__, '
-    '__dict__, __slots__, __init__) are excluded by the property and never generated; __x__ is not a member of '
-    'object and is used',
+    '__dict__, __slots__, __init__) are excluded by the property and never generated; __x__, __, ___ are not '
+    'members of object and are used',
     '"absent" is observed as: [] , getattr and get raise some Exception (the type is not prescribed)',
     '"raises" for setattr/delattr: any Exception',
     'per level only the first sub-map is expanded with the full choice, further sub-maps hold {a: handle}; '
